@@ -48,6 +48,10 @@ struct Inode {
   std::map<std::string, std::shared_ptr<Inode>> entries; // DIR (sorted => deterministic)
   bool deny_remove = false; // unlink/rmdir of this node fails with EACCES
   std::string link_target; // SYMLINK: absolute simulated path (may dangle)
+  // REG: a file whose size cannot be asked for, only read (like /proc files: st_size and SEEK_END say 0)
+  bool sizeless = false;
+  // REG: another process appends these bytes right after the first size query (fstat or SEEK_END) on it
+  std::string appended_after_size_query;
   int urandom_mode = 0; // URANDOM byte generator
   uint64_t urandom_seed = 0;
   uint64_t urandom_pos = 0;
@@ -56,6 +60,12 @@ struct Inode {
   // the tape): 0 = normal, k>0 = deliver at most k bytes, -1 = EIO from this call on (a failed medium stays
   // failed; a transient error followed by successful reads is not modelled). Empty = not scripted.
   std::vector<int> read_script;
+  // A signal without SA_RESTART interrupts the reader once: the first read that starts at or beyond
+  // `intr_at_offset` delivers at most `intr_piece` bytes (if non-zero), the next one fails with EINTR, and from
+  // then on reads are normal again. SIZE_MAX = never.
+  size_t intr_at_offset = SIZE_MAX;
+  size_t intr_piece = 0;
+  int intr_state = 0;
 };
 
 struct OpenFile {
@@ -102,6 +112,8 @@ struct World {
   // hook invoked on entry to every read (false) / write (true) of a simulated FILE* stream: the caller is
   // "inside the system call" there, which is where another thread of the same process gets to run
   void (*io_hook)(bool is_write) = nullptr;
+  // hook invoked when a read() on a simulated descriptor has delivered data, before it returns
+  void (*after_read_hook)() = nullptr;
   bool shuffle_readdir = false;
   bool own_empty_polls = false;
   // The calling process "has no descriptor 0": the next open() of a simulated path is handed the number 0
@@ -158,6 +170,8 @@ uint64_t urandom_consumed();
 // -3 = a signal is pending: at most one page (4096 bytes) is delivered, as Linux does.
 // When the script is exhausted every read is delivered in full.
 void set_urandom_script(const std::vector<int>& script);
+// The next `times` opens of /dev/urandom fail with EMFILE (the process has momentarily no free descriptor).
+void urandom_open_fails(int times);
 size_t urandom_script_used();
 
 } // namespace vfs
